@@ -247,7 +247,11 @@ def unlinkPrims (chain : List Node) (n : Node) : List Prim :=
 (the history left the modelled fragment) -/
 def stepPrims (w : W) : Op → List Prim × (W → W) × Ans
   | .inst i imp tab =>
-    if !(w.rtOpen && w.rtHeld && w.engOpen) then ([], id, if w.rtHeld then Ans.ierr else Ans.nohandle)
+    -- compiling on a closed wazevo engine cannot succeed (compiledModules is nil; on this tree it is a Go
+    -- panic, finding N1; the model answers the ordinary error); the interpreter's engine.Close only
+    -- clears its map and the engine stays usable
+    if !(w.rtOpen && w.rtHeld && (w.engOpen || w.kind == .interpreter)) then
+      ([], id, if w.rtHeld then Ans.ierr else Ans.nohandle)
     else if (w.find i).isSome then ([], id, Ans.dup)
     else
       let impI := imp.bind w.find
